@@ -680,7 +680,7 @@ func rewriteOld(e ast.Expr, set map[ast.Expr]bool) ast.Expr {
 			// argAs("callee", k, e) / retAs("callee", k, e): the k-th argument/result of the last call,
 			// typed like the expression e (which is only type-checked, never evaluated)
 			if id, ok := x.Fun.(*ast.Ident); ok && (id.Name == "argAs" || id.Name == "retAs") && len(x.Args) == 3 {
-				p := &ast.ParenExpr{Lparen: x.Lparen, X: x.Args[2], Rparen: x.Rparen}
+				p := &ast.ParenExpr{Lparen: x.Lparen, X: rw(x.Args[2]), Rparen: x.Rparen}
 				if ghostAs == nil {
 					ghostAs = map[ast.Expr][3]string{}
 				}
